@@ -444,6 +444,12 @@ def run(ctx):
             case = {"kind": "tree", "tree": rc, "seed": int(rng.integers(0, 2**31 - 1))}
             ctx.case(case, nontrivial=rc["n"] >= 3, klass=f"tree/{rc['shape']}/{rc['geom']}")
             execute(ctx, case)
+        for j, rc in enumerate(G.real_recipes(rng, 1000 if ctx.quick else None)):
+            if j % ctx.nshards == ctx.shard:
+                case = {"kind": "tree", "tree": rc, "seed": int(rng.integers(0, 2**31 - 1))}
+                ctx.case(case, klass="real-morphology")
+                ctx.count("real_morphologies")
+                execute(ctx, case)
     ctx.count("tap_sholl_get", tap.counts["sholl_get"])
     ctx.count("tap_features_get", tap.counts["features_get"])
 
